@@ -62,12 +62,14 @@ DRIVES = {
     "const": [{"amp": ["const", 100, 5.0], "det": ["const", 100, 1.5], "phase": 0.0}],
     "phase": [{"amp": ["const", 100, 5.0], "det": ["ramp", 100, -4.0, 4.0], "phase": 0.8}],
     "blackman": [{"amp": ["blackman", 100, 2.5], "det": ["const", 100, -1.0], "phase": 0.0}],
+    # identical amplitude and detuning in consecutive steps, only the phase changes
+    "phasejump": [{"amp": ["const", 50, 5.0], "det": ["const", 50, 1.5], "phase": 0.0}, {"amp": ["const", 50, 5.0], "det": ["const", 50, 1.5], "phase": 1.3}],
 }
 
 
 def _alph(tier):
     if tier == "quick":
-        return dict(shape=["one", "pair"], drive=["const", "phase"], dt=[10], tol=[1e-10], init=[None, "mixed"])
+        return dict(shape=["one", "pair"], drive=["const", "phase", "phasejump"], dt=[10], tol=[1e-10], init=[None, "mixed"])
     return dict(shape=["one", "pair", "bent3"], drive=list(DRIVES), dt=[10, 3], tol=[1e-10, 1e-6], init=[None, "product", "mixed"])
 
 
